@@ -3,7 +3,7 @@
    [vm_compute] witness for an Example.  The reference reading of a hello is the independent
    RFC 8446/6066/7301 encoder of model/TlsHello.v; agreement of that reading with crypto/tls is
    established differentially by the engine (harness/overlay/l4tls/c07_test.go). *)
-From Coq Require Import List ZArith NArith Bool String.
+From Coq Require Import List ZArith NArith Bool Arith String.
 From Coq.Strings Require Import Byte.
 From L4 Require Import Hex.
 From L4.model Require Import GoBase TlsHello.
@@ -61,18 +61,56 @@ Theorem C07_gate_incomplete_more : forall subs v frag p s,
 Proof. exact tlsh_match_prefix. Qed.
 
 (* a complete record (whatever follows it) is decided on the reading of its hello, and the
-   placeholders are the hello's host name and legacy version *)
-Theorem C07_match_record : forall subs v h rest,
+   placeholders are the hello's host name and legacy version.
+   PARTIAL: this is the property for a ClientHello carried in ONE record (what crypto/tls clients
+   write).  Missing: hellos fragmented across several records, for which today's code violates the
+   property (C07_fragmented_hello_refuted below). *)
+Theorem C07_match_record_partial : forall subs v h rest,
   wf_hello h -> vfits 2 (hs_header (encode_hello h) ++ encode_hello h) ->
   tls_match subs (encode_record v h ++ rest) =
   {| r_verdict := if subs (info_of_hello h) then Yes else No;
      r_server_name := Some (sni h); r_version := Some (h_legacy_version h) |}.
 Proof. exact tlsh_match_record. Qed.
 
+
+(* a decision, once taken, is not changed by bytes that arrive later *)
+Theorem C07_decision_stable : forall subs p s,
+  r_verdict (tls_match subs p) <> More -> tls_match subs (p ++ s) = tls_match subs p.
+Proof. exact tlsh_match_stable. Qed.
+
+(* model hygiene: the loops' fuel (= bytes to iterate over) is never exhausted, for any input *)
+Theorem C07_fuel_adequate :
+  (forall f1 exts f2 i, (List.length exts <= f1)%nat -> (List.length exts <= f2)%nat ->
+     parse_exts f1 exts i = parse_exts f2 exts i) /\
+  (forall f1 nl f2 i, (List.length nl <= f1)%nat -> (List.length nl <= f2)%nat ->
+     sni_loop f1 nl i = sni_loop f2 nl i) /\
+  (forall f1 s f2, (List.length s <= f1)%nat -> (List.length s <= f2)%nat ->
+     cb_many f1 cb_u16 s = cb_many f2 cb_u16 s /\
+     cb_many f1 (nonempty_lp 1) s = cb_many f2 (nonempty_lp 1) s /\
+     cb_many f1 key_share_step s = cb_many f2 key_share_step s /\
+     cb_many f1 psk_identity_step s = cb_many f2 psk_identity_step s).
+Proof.
+  exact (conj tlsh_exts_fuel (conj tlsh_sni_fuel (fun f1 s f2 H1 H2 =>
+    conj (tlsh_many_fuel cb_u16 tlsh_u16_shortens f1 s f2 H1 H2)
+    (conj (tlsh_many_fuel (nonempty_lp 1) tlsh_nonempty_lp_shortens f1 s f2 H1 H2)
+    (conj (tlsh_many_fuel key_share_step tlsh_key_share_shortens f1 s f2 H1 H2)
+          (tlsh_many_fuel psk_identity_step tlsh_psk_identity_shortens f1 s f2 H1 H2)))))).
+Qed.
+
 (* the alpn sub-matcher: some configured protocol is among the client's *)
 Theorem C07_alpn_match : forall cfg protos,
   alpn_match cfg protos = true <-> exists a, In a cfg /\ In a protos.
 Proof. exact tlsh_alpn_match_spec. Qed.
+
+
+(* ALPN routing on a complete single-record hello is decided on the hello's protocol list *)
+Theorem C07_alpn_routing : forall cfg v h rest,
+  wf_hello h -> vfits 2 (hs_header (encode_hello h) ++ encode_hello h) ->
+  (r_verdict (tls_match (fun i => alpn_match cfg (i_protos i)) (encode_record v h ++ rest)) = Yes
+   <-> exists a, In a cfg /\ In a (alpn h)) /\
+  (r_verdict (tls_match (fun i => alpn_match cfg (i_protos i)) (encode_record v h ++ rest)) = No
+   <-> ~ exists a, In a cfg /\ In a (alpn h)).
+Proof. exact tlsh_alpn_routing. Qed.
 
 (* the implementation's extension numbers are the IANA numbers of the encoder *)
 Theorem C07_extension_numbers :
@@ -140,6 +178,22 @@ Example C07_example_parse :
   i_extensions i = [0; 11; 65281; 23; 18; 5; 10; 13; 16; 43]%N.
 Proof. vm_compute. repeat split. Qed.
 
+
+(* REFUTED for hellos fragmented across records (RFC 8446 5.1 allows it, crypto/tls servers
+   reassemble): the matcher reads one record and parses the first fragment as the whole hello, so
+   the host name is lost.  Recorded finding C07:fragmented-hello:*; C07_match_record_partial above is the
+   single-record statement. *)
+Theorem C07_fragmented_hello_refuted : exists h k v,
+  wf_hello h /\
+  let msg := hs_header (encode_hello h) ++ encode_hello h in
+  (0 < k < List.length msg)%nat /\ sni h <> [] /\
+  r_server_name (tls_match (fun _ => true) (tls_record v (firstn k msg) ++ tls_record v (skipn k msg)))
+    <> Some (sni h).
+Proof.
+  exists ex_hello, 71%nat, 769%N. split; [exact C07_example_wf|].
+  vm_compute. repeat split; try discriminate; apply Nat.leb_le; reflexivity.
+Qed.
+
 (* a hello without supported_versions gets the list derived from legacy_version 0x0302 *)
 Example C07_example_legacy :
   i_versions (parse_hello (unhex "01000029" ++ encode_hello
@@ -170,8 +224,12 @@ Print Assumptions C07_parse_encode_all_fields.
 Print Assumptions C07_versions_from_legacy.
 Print Assumptions C07_gate_non_handshake_no.
 Print Assumptions C07_gate_incomplete_more.
-Print Assumptions C07_match_record.
+Print Assumptions C07_match_record_partial.
+Print Assumptions C07_decision_stable.
+Print Assumptions C07_fuel_adequate.
 Print Assumptions C07_alpn_match.
+Print Assumptions C07_alpn_routing.
+Print Assumptions C07_fragmented_hello_refuted.
 Print Assumptions C07_extension_numbers.
 Print Assumptions C07_example_wf.
 Print Assumptions C07_example_encoding.
